@@ -7,6 +7,8 @@ Search: set-algebra reference (documented rule) against the real code.
 """
 from prosemirror.model import Mark, Schema
 
+import json
+
 from .. import core, gen
 from ..codec import SchemaInfo
 from ..core import outcome
@@ -105,6 +107,20 @@ def run(ctx):
         ctx.driver.add_schema(info)
         sid = info.lean_id
         ctx.count("schemas")
+        # the same configuration made ill-formed in one place must be refused when the schema is built: an `excludes` or a
+        # node `marks` expression naming something that is neither a mark nor a group, or one name used for a node and a mark
+        bad_spec = json.loads(json.dumps(schema.spec, default=str))
+        kind = rng.choice(["excludes", "marks", "clash"])
+        if kind == "excludes":
+            bad_spec["marks"][rng.choice(sorted(bad_spec["marks"]))]["excludes"] = "nosuchmark"
+        elif kind == "marks":
+            bad_spec["nodes"]["p"]["marks"] = "m0 nosuchmark"
+        else:
+            bad_spec["marks"]["p"] = {}
+        stb, scb = outcome(lambda: Schema(bad_spec))
+        ctx.count("malformed:" + kind + ":" + ("accepted" if stb == "ok" else "rejected"))
+        if stb in ("ok", "hang"):
+            ctx.violation("malformed-accepted", f"Schema() accepted an ill-formed mark configuration ({kind})", {"spec": bad_spec, "malformed": kind})
         # exclusion relation
         for a in schema.marks.values():
             for b in schema.marks.values():
@@ -187,6 +203,16 @@ def run(ctx):
                     ctx.violation("set_from", "set_from is not a rank-sorted permutation", replay)
                 reqs.append({"op": "setFrom", "set": info.marks(sh)})
                 metas.append(("setFrom", info, replay, info.marks(sf)))
+                # the two other accepted argument forms: a single mark, and nothing
+                if base_ref:
+                    one = rng.choice(base_ref)
+                    st1, sf1 = outcome(lambda: Mark.set_from(one))
+                    if st1 != "ok" or len(sf1) != 1 or sf1[0] is not one:
+                        ctx.violation("set_from", "set_from(mark) is not the one-element set of that mark", dict(replay, single=one.to_json()))
+                    ctx.count("set_from:single")
+                st0, sf0 = outcome(lambda: (Mark.set_from(None), Mark.set_from([])))
+                if st0 != "ok" or list(sf0[0]) != [] or list(sf0[1]) != []:
+                    ctx.violation("set_from", "set_from(None) / set_from([]) is not the empty set", replay)
                 # permission filtering for every node type
                 for nt in schema.nodes.values():
                     stf, filt = outcome(lambda: nt.allowed_marks(list(base_ref)))
